@@ -926,6 +926,11 @@ var ownLockers = map[string]bool{}
 
 func RegisterOwnLocker(name string) { ownLockers[name] = true }
 
+// DynBind stands for a method value taken from an interface value (unlock := l.Unlock).
+func DynBind(site int, l any, method string) func() {
+	return func() { DynLock(site, l, method) }
+}
+
 func DynLock(site int, l any, method string) {
 	switch m := l.(type) {
 	case *sync.Mutex:
